@@ -332,6 +332,26 @@ func c04Chain(c *fw.Case) {
 				}
 			}
 		}
+		if r.Chance(1, 3) {
+			// ... and members its operation type has no use for (a deactivate that names a next commitment or a delta hash, an update that
+			// names a recovery commitment): ignored, the operation reports what its type reports
+			own, inner := spec, spec.PayloadEdit
+			stray := gen.NewKey(r, gen.Ed25519).Commitment(code)
+			spec.PayloadEdit = func(p map[string]interface{}) {
+				if inner != nil {
+					inner(p)
+				}
+				switch own.Type {
+				case "deactivate":
+					p["recoveryCommitment"], p["deltaHash"], p["updateCommitment"] = stray, stray, stray
+				case "update":
+					p["recoveryCommitment"], p["recoveryKey"] = stray, gen.NewKey(r, gen.Ed25519).JWK()
+				case "recover":
+					p["updateCommitment"], p["updateKey"] = stray, gen.NewKey(r, gen.Ed25519).JWK()
+				}
+			}
+			c.Count("signed-data-with-members-of-other-operation-types", 1)
+		}
 		b := spec.Build(r)
 		seq += kind[:1]
 		sample = append(sample, kind)
